@@ -44,6 +44,7 @@ class Module(object):
         self._funcs = None
         self._classes = None
         self._blines = None
+        self._segcache = {}
 
     # ---- lookup helpers -------------------------------------------------
     def functions(self):
@@ -106,8 +107,8 @@ class Module(object):
             raise AnalysisError("anchor vanished: %s.%s" % (self.name, name))
         return found
 
-    def seg(self, node):
-        """Source text of a node (fast replacement for ast.get_source_segment)."""
+    def raw(self, node):
+        """Exact source text of a node (fast replacement for ast.get_source_segment)."""
         try:
             l0, c0, l1, c1 = node.lineno, node.col_offset, node.end_lineno, node.end_col_offset
         except AttributeError:
@@ -122,8 +123,105 @@ class Module(object):
         parts = [bl[l0 - 1][c0:]] + bl[l0:l1 - 1] + [bl[l1 - 1][:c1]]
         return b"".join(parts).decode("utf-8")
 
+    def seg(self, node):
+        """Canonical text of a node: ast.unparse, so that layout, quoting, redundant parentheses,
+        comments and split string literals of the analysed source do not matter.  The result is a
+        `Seg`: comparing it with / searching it for a fragment canonicalises the fragment too."""
+        key = id(node)
+        got = self._segcache.get(key)
+        if got is None:
+            try:
+                got = Seg(ast.unparse(node))
+            except Exception:
+                got = Seg(self.raw(node))
+            self._segcache[key] = got
+        return got
+
     def loc(self, node):
         return "%s:%d" % (self.relpath, getattr(node, "lineno", 0))
+
+
+_FRAG_CACHE = {}
+
+
+def canon(frag):
+    """Canonical form of a source fragment written in a checker: parsed and unparsed when it is a
+    complete expression/statement, else only the quoting is normalised."""
+    got = _FRAG_CACHE.get(frag)
+    if got is not None:
+        return got
+    out = None
+    f = frag.strip("\n")
+    try:
+        lines = f.split("\n")
+        ind = min((len(l) - len(l.lstrip()) for l in lines if l.strip()), default=0)
+        src = "\n".join(l[ind:] for l in lines)
+        try:
+            out = ast.unparse(ast.parse(src, mode="eval"))
+        except SyntaxError:
+            out = ast.unparse(ast.parse(src))
+    except (SyntaxError, ValueError, IndentationError):
+        out = None
+    if out is None or not out.strip():
+        out = frag
+        if '"' in out and "'" not in out:
+            out = out.replace('"', "'")
+    _FRAG_CACHE[frag] = out
+    return out
+
+
+class Seg(str):
+    """str holding canonical (ast.unparse) text; fragments it is compared with are canonicalised."""
+
+    def _alts(self, frag):
+        if not isinstance(frag, str) or isinstance(frag, Seg):
+            return [frag]
+        c = canon(frag)
+        return [c] if c == frag else [c, frag]
+
+    def __contains__(self, frag):
+        for a in self._alts(frag):
+            if str.__contains__(self, a):
+                return True
+            if isinstance(a, str) and "\n" in a:
+                # multi-line fragment: its lines, in order, among the lines of this text
+                want = [l.strip() for l in a.split("\n") if l.strip()]
+                have = [l.strip() for l in str(self).split("\n")]
+                i = 0
+                for h in have:
+                    if i < len(want) and h == want[i]:
+                        i += 1
+                if want and i == len(want):
+                    return True
+        return False
+
+    def __eq__(self, other):
+        return any(str.__eq__(self, a) is True for a in self._alts(other))
+
+    def __ne__(self, other):
+        return not self.__eq__(other)
+
+    __hash__ = str.__hash__
+
+    def count(self, frag, *a):
+        return max(str.count(self, x, *a) for x in self._alts(frag))
+
+    def find(self, frag, *a):
+        for x in self._alts(frag):
+            r = str.find(self, x, *a)
+            if r >= 0:
+                return r
+        return -1
+
+    def startswith(self, frag, *a):
+        if isinstance(frag, tuple):
+            return any(self.startswith(f, *a) for f in frag)
+        return any(str.startswith(self, x, *a) for x in self._alts(frag))
+
+    def endswith(self, frag, *a):
+        if isinstance(frag, tuple):
+            return any(self.endswith(f, *a) for f in frag)
+        return any(str.endswith(self, x, *a) for x in self._alts(frag))
 
 
 class Repo(object):
